@@ -1450,3 +1450,246 @@ Theorem load_no_panic_release now wall ds0 b : load_status (load_from false now 
 Proof.
   unfold load_status, load_from. destruct (read_header _) as [[u|] s1]; [apply load_loop_no_panic | cbn; discriminate].
 Qed.
+
+(** ------------------------------------------------------------------ *)
+(** * C10 (3): what the loader's allocation is bounded by - the largest length the 32-bit
+      form can declare, not the file length *)
+Definition bytes_ok (l : bytes) : Prop := Forall (fun c => 0 <= c < 256) l.
+Definition rd_ok (s : rd) : Prop := bytes_ok (r_in s) /\ r_resv s < two32.
+Definition res_ok {A} (r : rres A) : Prop := rd_ok (snd r).
+
+Lemma take_ok l : forall n a b, take l n = Some (a, b) -> bytes_ok l -> bytes_ok a /\ bytes_ok b.
+Proof.
+  induction l as [|c l IH]; intros n a b; cbn [take]; destruct (n <=? 0).
+  - intros H _. inversion H. split; constructor.
+  - discriminate.
+  - intros H Hl. inversion H; subst. split; [constructor | exact Hl].
+  - destruct (take l (n - 1)) as [[a' b']|] eqn:E; [|discriminate]. intros H Hl. inversion H; subst.
+    apply Forall_cons_iff in Hl. destruct Hl as [Hc Hl]. destruct (IH _ _ _ E Hl) as [Ha Hb].
+    split; [constructor; assumption | exact Hb].
+Qed.
+Lemma read_exact_ok n s : rd_ok s -> res_ok (read_exact n s) /\
+  (forall a s', read_exact n s = (Some a, s') -> bytes_ok a).
+Proof.
+  intros [Hb Hr]. unfold read_exact, res_ok. destruct (take (r_in s) n) as [[a b]|] eqn:E.
+  - destruct (take_ok _ _ _ _ E Hb) as [Ha Hb']. cbn [snd]. split; [split; assumption|].
+    intros a0 s' H. inversion H; subst. exact Ha.
+  - cbn [snd]. split; [split; assumption | discriminate].
+Qed.
+Lemma read_byte_ok s : rd_ok s -> res_ok (read_byte s) /\
+  (forall c s', read_byte s = (Some c, s') -> 0 <= c < 256).
+Proof.
+  intros [Hb Hr]. unfold read_byte, res_ok. destruct (r_in s) as [|c r] eqn:E; cbn [snd].
+  - split; [split; [rewrite E; constructor | exact Hr] | discriminate].
+  - apply Forall_cons_iff in Hb. destruct Hb as [Hc Hb]. split; [split; assumption|].
+    intros c0 s' H. inversion H; subst. exact Hc.
+Qed.
+Lemma le_val_bound l : bytes_ok l -> 0 <= le_val l < 256 ^ Z.of_nat (length l).
+Proof.
+  induction l as [|c l IH]; intros H; cbn [le_val length].
+  - change (256 ^ Z.of_nat 0) with 1. lia.
+  - apply Forall_cons_iff in H. destruct H as [Hc Hl]. specialize (IH Hl).
+    rewrite Nat2Z.inj_succ, Z.pow_succ_r by lia. lia.
+Qed.
+Lemma take_length l : forall n a b, 0 <= n -> take l n = Some (a, b) -> Z.of_nat (length a) = n.
+Proof.
+  induction l as [|c l IH]; intros n a b Hn; cbn [take]; destruct (n <=? 0) eqn:E.
+  - intros H. inversion H. cbn [length]. lia.
+  - discriminate.
+  - intros H. inversion H. cbn [length]. lia.
+  - destruct (take l (n - 1)) as [[a' b']|] eqn:E2; [|discriminate]. intros H. inversion H; subst.
+    cbn [length]. apply IH in E2; lia.
+Qed.
+
+Lemma read_u32_be_ok' s : rd_ok s -> res_ok (read_u32_be s) /\
+  (forall x s', read_u32_be s = (Some x, s') -> 0 <= x < two32).
+Proof.
+  intros Hs. unfold read_u32_be, bind. destruct (read_exact_ok 4 s Hs) as [H1 H2].
+  destruct (read_exact 4 s) as [[a|] s1] eqn:E; [|split; [exact H1 | discriminate]].
+  unfold ret. split; [exact H1|]. intros x s' H. inversion H; subst.
+  specialize (H2 _ _ eq_refl).
+  assert (Hlen : Z.of_nat (length a) = 4).
+  { unfold read_exact in E. destruct (take (r_in s) 4) as [[a' b']|] eqn:Et; [|discriminate].
+    inversion E; subst. eapply take_length; [|exact Et]. lia. }
+  unfold be_val. assert (Hrev : bytes_ok (rev a)) by (apply Forall_rev; exact H2).
+  pose proof (le_val_bound _ Hrev) as Hb. rewrite rev_length, Hlen in Hb. exact Hb.
+Qed.
+
+Lemma read_length_ok s : rd_ok s -> res_ok (read_length s) /\
+  (forall n s', read_length s = (Some n, s') -> 0 <= n < two32).
+Proof.
+  intros Hs. unfold read_length, bind. destruct (read_byte_ok s Hs) as [H1 H2].
+  destruct (read_byte s) as [[first|] s1] eqn:E; [|split; [exact H1 | discriminate]].
+  specialize (H2 _ _ eq_refl). unfold res_ok in H1. cbn [snd] in H1.
+  assert (Hq : 0 <= first / 64 <= 3) by (pose proof (Z.div_mod first 64); pose proof (Z.mod_pos_bound first 64); lia).
+  destruct (first / 64 =? 0) eqn:E0.
+  { unfold ret. split; [exact H1|]. intros n s' H. inversion H; subst. unfold two32. lia. }
+  destruct (first / 64 =? 1) eqn:E1.
+  { destruct (read_byte_ok s1 H1) as [G1 G2].
+    destruct (read_byte s1) as [[second|] s2] eqn:Eb; [|split; [exact G1 | discriminate]].
+    specialize (G2 _ _ eq_refl). unfold ret. split; [exact G1|]. intros n s' H. inversion H; subst.
+    pose proof (Z.mod_pos_bound first 64). unfold two32. lia. }
+  destruct (first / 64 =? 2) eqn:E2.
+  { apply read_u32_be_ok'. exact H1. }
+  unfold fail. split; [exact H1 | discriminate].
+Qed.
+
+Lemma read_string_ok s : rd_ok s -> res_ok (read_string s).
+Proof.
+  intros Hs. unfold read_string, bind. destruct (read_length_ok s Hs) as [H1 H2].
+  destruct (read_length s) as [[n|] s1] eqn:E; [|exact H1].
+  specialize (H2 _ _ eq_refl). unfold res_ok in H1. cbn [snd] in H1. destruct H1 as [Hb Hr].
+  unfold reserve. cbn [r_in r_resv].
+  apply read_exact_ok. split; cbn [r_in r_resv]; [exact Hb | lia].
+Qed.
+Lemma read_u64_le_ok' s : rd_ok s -> res_ok (read_u64_le s).
+Proof.
+  intros Hs. unfold read_u64_le, bind. destruct (read_exact_ok 8 s Hs) as [H1 _].
+  destruct (read_exact 8 s) as [[a|] s1]; exact H1.
+Qed.
+Lemma read_u32_le_ok' s : rd_ok s -> res_ok (read_u32_le s).
+Proof.
+  intros Hs. unfold read_u32_le, bind. destruct (read_exact_ok 4 s Hs) as [H1 _].
+  destruct (read_exact 4 s) as [[a|] s1]; exact H1.
+Qed.
+
+Ltac step_rs s H := let G := fresh "G" in
+  pose proof (read_string_ok s H) as G; unfold res_ok in G; destruct (read_string s) as [[?x|] ?s]; cbn [snd] in G.
+
+Lemma read_strings_ok' fuel : forall n acc s, rd_ok s -> res_ok (read_strings fuel n acc s).
+Proof.
+  induction fuel as [|f IH]; intros n acc s Hs; rewrite read_strings_eq; destruct (n <=? 0); try exact Hs.
+  unfold bind. step_rs s Hs; [apply IH; exact G | exact G].
+Qed.
+Lemma read_pairs_ok' fuel : forall n acc s, rd_ok s -> res_ok (read_pairs fuel n acc s).
+Proof.
+  induction fuel as [|f IH]; intros n acc s Hs; rewrite read_pairs_eq; destruct (n <=? 0); try exact Hs.
+  unfold bind. step_rs s Hs; [|exact G]. step_rs s0 G; [apply IH; exact G0 | exact G0].
+Qed.
+Lemma read_strings_partial_ok' fuel : forall n acc s, rd_ok s -> rd_ok (snd (read_strings_partial fuel n acc s)).
+Proof.
+  induction fuel as [|f IH]; intros n acc s Hs; rewrite read_strings_partial_eq; destruct (n <=? 0); try exact Hs.
+  step_rs s Hs; [apply IH; exact G | exact G].
+Qed.
+Lemma read_zitems_partial_ok' fuel : forall n acc s, rd_ok s -> rd_ok (snd (read_zitems_partial fuel n acc s)).
+Proof.
+  induction fuel as [|f IH]; intros n acc s Hs; rewrite read_zitems_partial_eq; destruct (n <=? 0); try exact Hs.
+  step_rs s Hs; [|exact G].
+  pose proof (read_u64_le_ok' s0 G) as G2. unfold res_ok in G2.
+  destruct (read_u64_le s0) as [[sc|] s2]; cbn [snd] in G2; [apply IH; exact G2 | exact G2].
+Qed.
+
+Definition step_ok {A} (r : step A) : Prop :=
+  match r with SOk _ s _ => rd_ok s | SErr s _ => rd_ok s | SPanic s _ => rd_ok s end.
+Lemma lift_api_ok {A} (a : A) s ds r : rd_ok s -> step_ok (lift_api a s ds r).
+Proof. intros H. destruct r; exact H. Qed.
+
+Lemma load_stream_ok chk fuel : forall ds i k idx remaining s, rd_ok s ->
+  step_ok (load_stream chk fuel ds i k idx remaining s).
+Proof.
+  induction fuel as [|f IH]; intros ds i k idx remaining s Hs; rewrite load_stream_eq; [exact Hs|].
+  destruct (remaining <=? idx); [exact Hs|]. destruct (remaining <=? idx + 2); [exact Hs|].
+  step_rs s Hs; [|exact G]. step_rs s0 G; [|exact G0]. cbv zeta.
+  match goal with |- context [if ?c then SPanic s1 ds else _] => destruct c; [exact G0|] end.
+  match goal with |- context [if ?c then SOk tt s1 ds else _] => destruct c; [exact G0|] end.
+  match goal with |- context [read_pairs ?a ?b ?c ?d] =>
+    pose proof (read_pairs_ok' a b c d G0) as G1; unfold res_ok in G1;
+    destruct (read_pairs a b c d) as [[fv|] s3]; cbn [snd] in G1; [|exact G1] end.
+  apply IH. exact G1.
+Qed.
+
+Lemma load_kv_ok chk now ds i vt ttl s : rd_ok s -> step_ok (load_kv chk now ds i vt ttl s).
+Proof.
+  intros Hs. unfold load_kv.
+  destruct (vt =? T_STRING).
+  { step_rs s Hs; [|exact G]. step_rs s0 G; [apply lift_api_ok; exact G0 | exact G0]. }
+  destruct ((vt =? T_ZSET) || (vt =? T_ZSET2)).
+  { step_rs s Hs; [|exact G].
+    pose proof (read_length_ok s0 G) as [G1 _]. unfold res_ok in G1.
+    destruct (read_length s0) as [[n|] s2]; cbn [snd] in G1; [|exact G1].
+    pose proof (read_zitems_partial_ok' (S (length (r_in s))) n [] s2 G1) as G2.
+    destruct (read_zitems_partial (S (length (r_in s))) n [] s2) as [[items ok] s3]. cbn [snd] in G2.
+    destruct (api_zadd_all ds i x items); [|exact G2].
+    destruct ok; [apply lift_api_ok; exact G2 | exact G2]. }
+  destruct (vt =? T_LIST).
+  { step_rs s Hs; [|exact G].
+    pose proof (read_length_ok s0 G) as [G1 _]. unfold res_ok in G1.
+    destruct (read_length s0) as [[n|] s2]; cbn [snd] in G1; [|exact G1].
+    destruct (1 <=? n); [|apply lift_api_ok; exact G1].
+    step_rs s2 G1; [|exact G0].
+    destruct (beq x0 marker).
+    - pose proof (load_stream_ok chk (S (length (r_in s))) ds i x 0 (n - 1) s1 G0) as G2.
+      destruct (load_stream chk (S (length (r_in s))) ds i x 0 (n - 1) s1); cbn [step_ok] in G2;
+        [apply lift_api_ok; exact G2 | exact G2 | exact G2].
+    - destruct (api_rpush ds i x [x0]); [|exact G0].
+      pose proof (read_strings_partial_ok' (S (length (r_in s))) (n - 1) [] s1 G0) as G2.
+      destruct (read_strings_partial (S (length (r_in s))) (n - 1) [] s1) as [[els ok] s4]. cbn [snd] in G2.
+      match goal with |- context [match ?y with Some ds2 => _ | None => _ end] => destruct y; [|exact G2] end.
+      destruct ok; [apply lift_api_ok; exact G2 | exact G2]. }
+  destruct (vt =? T_SET).
+  { step_rs s Hs; [|exact G].
+    pose proof (read_length_ok s0 G) as [G1 _]. unfold res_ok in G1.
+    destruct (read_length s0) as [[n|] s2]; cbn [snd] in G1; [|exact G1].
+    pose proof (read_strings_ok' (S (length (r_in s))) n [] s2 G1) as G2. unfold res_ok in G2.
+    destruct (read_strings (S (length (r_in s))) n [] s2) as [[ms|] s3]; cbn [snd] in G2; [|exact G2].
+    destruct (api_sadd ds i x ms); [apply lift_api_ok; exact G2 | exact G2]. }
+  destruct (vt =? T_HASH).
+  { step_rs s Hs; [|exact G].
+    pose proof (read_length_ok s0 G) as [G1 _]. unfold res_ok in G1.
+    destruct (read_length s0) as [[n|] s2]; cbn [snd] in G1; [|exact G1].
+    pose proof (read_pairs_ok' (S (length (r_in s))) n [] s2 G1) as G2. unfold res_ok in G2.
+    destruct (read_pairs (S (length (r_in s))) n [] s2) as [[fv|] s3]; cbn [snd] in G2; [|exact G2].
+    destruct (api_hset ds i x fv); [apply lift_api_ok; exact G2 | exact G2]. }
+  exact Hs.
+Qed.
+
+Lemma load_loop_ok chk now wall fuel : forall cur ds s, rd_ok s -> rd_ok (snd (load_loop chk now wall fuel cur ds s)).
+Proof.
+  induction fuel as [|f IH]; intros cur ds s Hs; [exact Hs|].
+  rewrite load_loop_eq.
+  destruct (read_byte_ok s Hs) as [H1 _]. unfold res_ok in H1.
+  destruct (read_byte s) as [[op|] s1]; cbn [snd] in H1; [|exact H1].
+  destruct (op =? OP_EOF).
+  { pose proof (read_u64_le_ok' s1 H1) as G. unfold res_ok in G. destruct (read_u64_le s1) as [[x|] s2]; exact G. }
+  destruct (op =? OP_SELECTDB).
+  { destruct (read_length_ok s1 H1) as [G _]. unfold res_ok in G.
+    destruct (read_length s1) as [[x|] s2]; cbn [snd] in G; [apply IH; exact G | exact G]. }
+  destruct (op =? OP_RESIZEDB).
+  { unfold bind. destruct (read_length_ok s1 H1) as [G _]. unfold res_ok in G.
+    destruct (read_length s1) as [[x|] s2]; cbn [snd] in G; [|exact G].
+    destruct (read_length_ok s2 G) as [G2 _]. unfold res_ok in G2.
+    destruct (read_length s2) as [[y|] s3]; cbn [snd] in G2; [apply IH; exact G2 | exact G2]. }
+  destruct (op =? OP_AUX).
+  { unfold bind. step_rs s1 H1; [|exact G]. step_rs s0 G; [apply IH; exact G0 | exact G0]. }
+  cbv zeta.
+  match goal with |- context [match ?r with SOk _ _ _ => _ | SErr _ _ => _ | SPanic _ _ => _ end] =>
+    assert (Hp : step_ok r); [|destruct r; cbn [step_ok] in Hp; [apply IH; exact Hp | exact Hp | exact Hp]] end.
+  destruct (op =? OP_EXPIRE_MS).
+  { pose proof (read_u64_le_ok' s1 H1) as G. unfold res_ok in G.
+    destruct (read_u64_le s1) as [[e|] s2]; cbn [snd] in G; [|exact G]. unfold load_kv_expiry.
+    destruct (read_byte_ok s2 G) as [G2 _]. unfold res_ok in G2.
+    destruct (read_byte s2) as [[vt|] s3]; cbn [snd] in G2; [apply load_kv_ok; exact G2 | exact G2]. }
+  destruct (op =? OP_EXPIRE_S).
+  { pose proof (read_u32_le_ok' s1 H1) as G. unfold res_ok in G.
+    destruct (read_u32_le s1) as [[e|] s2]; cbn [snd] in G; [|exact G]. unfold load_kv_expiry.
+    destruct (read_byte_ok s2 G) as [G2 _]. unfold res_ok in G2.
+    destruct (read_byte s2) as [[vt|] s3]; cbn [snd] in G2; [apply load_kv_ok; exact G2 | exact G2]. }
+  apply load_kv_ok. exact H1.
+Qed.
+
+Theorem load_resv_below_4gib chk now wall ds0 b :
+  bytes_ok b -> load_resv (load_from chk now wall ds0 b) < two32.
+Proof.
+  intros Hb. unfold load_resv, load_from.
+  assert (H0 : rd_ok {| r_in := b; r_resv := 0 |}) by (split; [exact Hb | reflexivity]).
+  assert (H1 : res_ok (read_header {| r_in := b; r_resv := 0 |})).
+  { unfold read_header, bind. destruct (read_exact_ok 5 _ H0) as [G _]. unfold res_ok in G.
+    destruct (read_exact 5 _) as [[m|] s1]; cbn [snd] in G; [|exact G].
+    destruct (negb (beq m magic)); [exact G|].
+    destruct (read_exact_ok 4 _ G) as [G2 _]. unfold res_ok in G2.
+    destruct (read_exact 4 s1) as [[v|] s2]; cbn [snd] in G2; [|exact G2].
+    destruct (parse_unsigned 65535 v); exact G2. }
+  unfold res_ok in H1. destruct (read_header _) as [[u|] s1]; cbn [snd] in H1.
+  - apply (load_loop_ok chk now wall _ 0 ds0 s1 H1).
+  - apply H1.
+Qed.
